@@ -9,7 +9,7 @@
    or are already complete, and firings of the two timers at any point). *)
 From Coq Require Import List ZArith Bool.
 Import ListNotations.
-From TV Require Import Lib.Obs C10.Model C10.Run C10.Proofs C10.Proofs3 C10.Proofs7 C10.Proofs8.
+From TV Require Import Lib.Obs C10.Model C10.Run C10.Proofs C10.Proofs3 C10.Proofs7 C10.Proofs11.
 
 (* (INV-1) The future is resolved at most once and never changes afterwards;
    no attempt is started after resolution. *)
@@ -157,17 +157,18 @@ Proof.
 Qed.
 Print Assumptions C10_model_never_runs_out_of_fuel.
 
-(* (CHECK, partial) The boolean property checker applied to the implementation's
-   observables accepts the model's own observable.  Full statement (NOT proved):
-     forall i, check_case i (run_case i) = true.
-   Proved here only on a bounded domain, by exhaustive evaluation: address lists of
-   0..2 entries over two families x {pending, sync success, sync failure, raises}, with and
-   without a connect timeout, all event lists of 0..4 events over
-   {fallback timer, connect timer, Done 0/1 ok/fail}. *)
-Theorem C10_checker_accepts_model_partial :
-  forall i, In i sweep_domain -> check_case i (run_case i) = true.
-Proof. exact sweep_all. Qed.
-Print Assumptions C10_checker_accepts_model_partial.
+(* (CHECK) The boolean property checker that ./check applies to the IMPLEMENTATION's
+   observables (Run.check_case: resolved once, winner = first success while pending,
+   errors only when exhausted / from the connect timer, no leak and no premature
+   close, one attempt per family, quiescent => resolved, remaining = uncompleted
+   attempts) accepts the model's own observable for EVERY input: every address list
+   (including the empty one), with or without connect timeout, every event list.
+   Proved by induction over the event list with a coupling invariant between the
+   checker's bookkeeping and the model state (Proofs9-11). *)
+Theorem C10_checker_accepts_model :
+  forall i, check_case i (run_case i) = true.
+Proof. exact checker_accepts_model. Qed.
+Print Assumptions C10_checker_accepts_model.
 
 (* The hypotheses are satisfiable and the statements are not vacuous: a run in which
    the secondary family wins, the late primary success is closed, nothing leaks. *)
